@@ -65,7 +65,10 @@ func EscapeMetricName(metricName string) string {
 				sb.Grow(metricLen)
 			}
 			sb.WriteString(metricName[offset:i])
-			offset = i + utf8.RuneLen(c)
+			// Use the width actually consumed from the input: for an invalid
+			// byte the decoded rune is U+FFFD, whose RuneLen is 3, not 1.
+			_, width := utf8.DecodeRuneInString(metricName[i:])
+			offset = i + width
 			sb.WriteByte('_')
 		}
 
